@@ -798,10 +798,13 @@ def main(tier, replay=None):
         return chk.finish()
     # model: prime fields only
     midx = [i for i, c in enumerate(cases) if isinstance(c.F, Fp) and c.op in MODEL_OP]
+    big = [i for i in midx if cases[i].F.p > 1000]       # the extracted model runs on unary/binary inductives: sample the big field
+    if len(big) > 400:
+        drop = set(big[400:])
+        midx = [i for i in midx if i not in drop]
     mout = {}
     if drv:
-        text = "".join(cases[i].line(MODEL_OP[cases[i].op]) + "\n" for i in midx)
-        rc, lines, merr = vf.run_lines(drv, text, timeout=1500)
+        rc, lines, merr = run_parallel(drv, [cases[i].line(MODEL_OP[cases[i].op]) for i in midx], timeout=1500)
         if rc != 0 or len(lines) != len(midx):
             chk.broke("model driver failed (rc=%s, %d/%d lines)" % (rc, len(lines), len(midx)), merr)
         else:
@@ -852,7 +855,7 @@ def main(tier, replay=None):
         for i, l, e in verified_queue:
             seen.setdefault(l, (i, e))
         keys = sorted(seen)
-        rc, lines, merr = vf.run_lines(drv, "".join(k + "\n" for k in keys), timeout=1500)
+        rc, lines, merr = run_parallel(drv, keys, timeout=1500)
         if rc != 0 or len(lines) != len(keys):
             chk.broke("verified checker run failed (rc=%s, %d/%d lines)" % (rc, len(lines), len(keys)), merr)
         else:
@@ -922,3 +925,37 @@ def run_isolated(himpl, cases, tmo=90):
                 out[i] = "SKIPPED"
             break
     return rc, out, err_all
+
+
+def run_parallel(binary, lines, timeout=1500, k=None):
+    """run the line protocol on k processes (round-robin split), results back in order"""
+    import subprocess
+    k = k or max(1, min(8, vf.NCPU // 2, len(lines) // 50 + 1))
+    chunks = [lines[j::k] for j in range(k)]
+    procs = [subprocess.Popen([binary], stdin=subprocess.PIPE, stdout=subprocess.PIPE, stderr=subprocess.PIPE,
+                              universal_newlines=True) for _ in range(k)]
+    import threading
+    res = [None] * k
+
+    def work(j):
+        try:
+            o, e = procs[j].communicate("".join(l + "\n" for l in chunks[j]), timeout=timeout)
+            res[j] = (procs[j].returncode, o.splitlines(), e)
+        except subprocess.TimeoutExpired:
+            procs[j].kill()
+            res[j] = (124, [], "[timeout]")
+    th = [threading.Thread(target=work, args=(j,)) for j in range(k)]
+    for t in th:
+        t.start()
+    for t in th:
+        t.join()
+    out = [None] * len(lines)
+    rc, err = 0, ""
+    for j in range(k):
+        r, o, e = res[j]
+        if r != 0 or len(o) != len(chunks[j]):
+            rc = r or 1
+            err += e[-500:]
+            return rc, [], err
+        out[j::k] = o
+    return rc, out, err
